@@ -90,6 +90,7 @@ w("46", "C05", "move out of a tuple reports success and leaves the source in pla
 w("46", "C05", "move out of a tuple held in an object reports success and leaves the source in place", {"tuples": True, "doc": {"a": [], "b": [0, 1, 2], "c": {"d": {"e": 1}}}, "tuple_at": [["b"]], "op": {"op": "move", "from": "/b/0", "path": "/c/x"}})
 w("47", "C06", "relative pointer whose new index has 4301 digits raises ValueError when applied", {"kind": "pointer", "text": "0+" + "9" * 4300, "docs": [[1]]})
 w("47", "C06", "the same with the key marker", {"kind": "pointer", "text": "0+" + "9" * 4300 + "#", "docs": [[1]]})
+w("48", "C18", "a document file with a stray 0xFF byte ends in a traceback", {"kind": "undecodable"})
 w("38", "C06", "patch target with a key marker raises KeyError", {"kind": "patch", "ops": [{"op": "remove", "path": "/#a"}], "docs": [{"a": 1}]})
 w("38", "C06", "patch target with an index marker raises ValueError", {"kind": "patch", "ops": [{"op": "add", "path": "/b/#0", "value": 1}], "docs": [{"b": [1, 2]}]})
 
